@@ -317,35 +317,69 @@ def rule_m7(ctx):
 def rule_m3(ctx):
     res = RuleResult("M3", "range patterns compare with both bounds on every path")
     f = C02.fn_of(ctx, C02.PAT_COMPILE)
-    body = ctx.body(f["id"])
+    pbody = ctx.body(f["id"])
+
+    def is_cmp(bd, b):
+        return bd.term(b)["k"] == "call" and mir.last_seg(mir.callee(bd.term(b)) or "") == "push_comparator_circuit"
+
+    def field_of(op, variant):
+        """which number of the pattern (0 = lower, 1 = upper bound) the wires in `op` were made from"""
+        out = set()
+        for (r, p) in pbody.trace_operand(op):
+            if r[0] == "call" and mir.last_seg(r[2] or "").endswith("_as_wires"):
+                for (r2, p2) in pbody.trace_operand(pbody.term(r[1])["args"][0]):
+                    if r2 == SELF1 and ("as " + variant) in p2:
+                        out.add(p2[-1])
+        return out
     for variant in ("UnsignedInclusiveRange", "SignedInclusiveRange"):
-        succ = body.pruned_succ({(SELF1, ("0",)): variant})
-        region = body.reachable([0], succ=succ)
-        if len(region) == len(body.reachable([0])):
+        psucc = pbody.pruned_succ({(SELF1, ("0",)): variant})
+        pregion = pbody.reachable([0], succ=psucc)
+        if len(pregion) == len(pbody.reachable([0])):
             raise AnchorMissing("M3: cannot isolate the %s arm" % variant)
-        cmps = sorted(b for b in region if body.term(b)["k"] == "call" and mir.last_seg(mir.callee(body.term(b)) or "") == "push_comparator_circuit")
+        body, succ, region, entry = pbody, psucc, pregion, 0
+        bound_of = lambda op: field_of(op, variant)
+        cmps = sorted(b for b in region if is_cmp(body, b))
+        if len(cmps) < 2:
+            # the arm may hand the comparison to a helper of compile.rs and return its verdict as it is
+            for b in sorted(pregion):
+                t = pbody.term(b)
+                h = mir.callee(t) if t["k"] == "call" else None
+                if h and h != f["id"] and ctx.has_fn(h) and ctx.fns[h]["sp"][0] == ctx.fns[f["id"]]["sp"][0] and t["dest"]["l"] == 0 and not t["dest"]["p"]:
+                    hb = ctx.body(h)
+                    hc = sorted(x for x in hb.reachable([0]) if is_cmp(hb, x))
+                    if len(hc) >= 2:
+                        body, succ, region, cmps = hb, hb.succs, hb.reachable([0]), hc
+
+                        def bound_of(op, hb=hb, t=t):
+                            out = set()
+                            for (r, p) in hb.trace_operand(op):
+                                if r[0] == "arg" and r[1] - 1 < len(t["args"]):
+                                    out |= field_of(t["args"][r[1] - 1], variant)
+                            return out
+                        break
         if len(cmps) < 2:
             res.bad(Finding("M3", f["id"], "%s: fewer than two comparisons" % variant, "a range pattern needs a lower and an upper comparison", f["sp"]))
             continue
         # unsigned-only guard edges (is_signed == false)
         unsigned_edges = set()
-        for (x, s) in C03._signed_true_edges(body, region):
+        for (x, s_) in C03._signed_true_edges(body, region):
             for s2 in body.succs(x):
-                if s2 != s:
+                if s2 != s_:
                     unsigned_edges.add((x, s2))
         bad = False
         for c in cmps:
             def succ2(b, c=c):
-                return [s for s in succ(b) if (b, s) not in unsigned_edges]
+                return [s_ for s_ in succ(b) if (b, s_) not in unsigned_edges]
             w = body.path(0, body.returns(), blocked={c}, succ=succ2)
             if w:
                 bad = True
-                res.bad(Finding("M3", f["id"], "%s: a bound comparison can be skipped" % variant,
+                res.bad(Finding("M3", body.id, "%s: a bound comparison can be skipped" % variant,
                                 "a path lowers the range pattern without one of its two comparisons (not behind an unsigned-only guard): values outside that bound match the arm",
                                 body.term(c)["sp"], witness=["bb%d" % x for x in w[-8:]]))
         # lower bound uses the lt output of the comparison with min, upper the gt output of the comparison with max
         ands = [b for b in region if body.term(b)["k"] == "call" and mir.last_seg(mir.callee(body.term(b)) or "") == "push_and" and body.term(b)["dest"]["l"] == 0]
         shape_ok = False
+        bounds_ok = False
         for a in ands:
             t = body.term(a)
             parts = []
@@ -358,11 +392,15 @@ def rule_m3(ctx):
                                 parts.append((cmps.index(r2[1]), p2))
             if sorted(parts) == [(0, ("0",)), (1, ("1",))]:
                 shape_ok = True
-        if shape_ok and not bad:
+                bounds_ok = bound_of(body.term(cmps[0])["args"][4]) == {"0"} and bound_of(body.term(cmps[1])["args"][4]) == {"1"}
+        if shape_ok and bounds_ok and not bad:
             res.ok({"pattern": variant, "verdict": "and(not lt(min), not gt(max)) with both comparisons on every path"})
         elif not shape_ok:
-            res.bad(Finding("M3", f["id"], "%s: match bit is not and(not lt_min, not gt_max)" % variant,
+            res.bad(Finding("M3", body.id, "%s: match bit is not and(not lt_min, not gt_max)" % variant,
                             "the match bit does not combine `not less than min` (first comparison, .0) with `not greater than max` (second comparison, .1)", f["sp"]))
+        elif not bounds_ok:
+            res.bad(Finding("M3", body.id, "%s: the comparisons are not against the pattern's own lower and upper bound" % variant,
+                            "the first comparison (whose `less than` output is used) must be against the wires of the pattern's lower bound, the second (`greater than`) against the upper bound", f["sp"]))
     return res
 
 
